@@ -143,10 +143,10 @@ def insertExt (e : Nat × Str) : List (Nat × Str) → List (Nat × Str)
 
 /-- `iana_static_rtp_params` -/
 def ianaStatic (pt : Nat) : Option Codec :=
-  if pt = ianaPtPcmu then some ⟨ianaPtPcmu, "PCMU".toList, ianaClockG729, 1⟩
-  else if pt = ianaPtPcma then some ⟨ianaPtPcma, "PCMA".toList, ianaClockG729, 1⟩
-  else if pt = ianaPtG722 then some ⟨ianaPtG722, "G722".toList, ianaClockG729, 1⟩
-  else if pt = ianaPtG729 then some ⟨ianaPtG729, "G729".toList, ianaClockG729, 1⟩
+  if pt = ianaPtPcmu then some ⟨ianaPtPcmu, "PCMU".toList, ianaClockPcmu, ianaChannelsPcmu⟩
+  else if pt = ianaPtPcma then some ⟨ianaPtPcma, "PCMA".toList, ianaClockPcma, ianaChannelsPcma⟩
+  else if pt = ianaPtG722 then some ⟨ianaPtG722, "G722".toList, ianaClockG722, ianaChannelsG722⟩
+  else if pt = ianaPtG729 then some ⟨ianaPtG729, "G729".toList, ianaClockG729, ianaChannelsG729⟩
   else none
 
 /-- one `a=rtpmap:<value>`: `"96 opus/48000/2"` -/
